@@ -37,7 +37,8 @@ def main():
     if "--tag" in sys.argv:
         tag = sys.argv[sys.argv.index("--tag") + 1]
         SCR, OUT = SCR + "-" + tag, OUT + "-" + tag
-    muts = json.load(open(os.path.join(ROOT, "selftest", "mutants.json")))
+    benign = "--benign" in sys.argv
+    muts = json.load(open(os.path.join(ROOT, "selftest", "benign.json" if benign else "mutants.json")))
     sh("./check C19 quick >/dev/null 2>&1 || true", cwd=ROOT, check=False)  # make sure the binary is built
     sh("git -C %s worktree remove --force %s 2>/dev/null; rm -rf %s %s" % (REPO, SCR, SCR, OUT), check=False)
     sh("git -C %s worktree add -q --detach %s HEAD" % (REPO, SCR))
@@ -70,13 +71,27 @@ def main():
                 src = src.replace(m["old2"], m["new2"])
             open(path, "w").write(src)
             rc, out = sh("go build ./... 2>&1 | head -5", cwd=SCR, check=False)
-            rc2, out2 = sh("go vet -vettool=/bin/true ./... >/dev/null 2>&1; go build ./...", cwd=SCR, check=False)
+            rc = 0
+            rc2, out2 = rc, out
+            if out.strip():
+                rc2 = 1
             if rc2 != 0:
                 rows.append((m, "NOCOMPILE", out.strip()[:200]))
                 bad += 1
                 print("%-8s NOCOMPILE %s" % (m["id"], out.strip()[:200]))
                 continue
             t0 = time.time()
+            if benign:
+                rc, out = sh("%s/bin/bverif check -property all -tier quick -repo %s -root %s" % (ROOT, SCR, OUT), check=False)
+                alarms = [l for l in out.splitlines() if l.startswith("# ") or l.startswith("BROKEN")]
+                if rc == 0:
+                    rows.append((dict(m, property="all", rule="-"), "SILENT", ""))
+                    print("%-8s SILENT (%.1fs)" % (m["id"], time.time() - t0))
+                else:
+                    rows.append((dict(m, property="all", rule="-"), "FALSE-ALARM rc=%d" % rc, " | ".join(alarms)[:300]))
+                    bad += 1
+                    print("%-8s FALSE ALARM rc=%d %s" % (m["id"], rc, " | ".join(alarms)[:300]))
+                continue
             rc, out = sh("%s/bin/bverif check -property %s -tier quick -repo %s -root %s" % (ROOT, m["property"], SCR, OUT), check=False)
             hit = [l for l in out.splitlines() if l.startswith("# " + m["rule"] + " ")]
             want_fn = m.get("expect", "")
@@ -98,7 +113,7 @@ def main():
         if not keep:
             sh("git -C %s worktree remove --force %s; rm -rf %s %s" % (REPO, SCR, SCR, OUT), check=False)
     if write:
-        with open(os.path.join(ROOT, "SELFTEST.md"), "w") as f:
+        with open(os.path.join(ROOT, "SELFTEST-benign.md" if benign else "SELFTEST.md"), "w") as f:
             f.write("# Mutation self-test of the checker\n\nOne small edit per row, applied to a scratch worktree of /repo; the tree still compiles; "
                     "the property's quick check must report a VIOLATION of the named rule in the named function.\n"
                     "Produced by `tools/selftest.py --write` (not a registered check).\n\n")
